@@ -1,0 +1,8 @@
+//! Verification hooks for C18 (feature `verif`): public view of crate-private mark / log
+//! helpers.  No behaviour of their own.
+
+pub use crate::plan::{
+    VerifBarrier as Barrier, VerifBarrierSemantics as BarrierSemantics,
+    VerifObjectBarrier as ObjectBarrier,
+};
+pub use crate::util::metadata::mark_bit::MarkState;
